@@ -245,5 +245,14 @@ func (e *Engine) ioKind(t types.Type, writer bool) int {
 	case "*bytes.Reader", "*bytes.Buffer", "*strings.Reader":
 		return 2
 	}
+	// a repository type whose Read carries a cursor contract: 3
+	if pt, ok := t.Underlying().(*types.Pointer); ok {
+		if nt, ok := pt.Elem().(*types.Named); ok && nt.Obj().Pkg() != nil {
+			key := nt.Obj().Pkg().Name() + ".(*" + nt.Obj().Name() + ").Read"
+			if ct := e.contracts[key]; ct != nil && len(ct.Raw["cursor"]) > 0 {
+				return 3
+			}
+		}
+	}
 	return 1
 }
